@@ -109,13 +109,24 @@ func (Engine) Run(prop string, t *core.Tape, st *core.Stats) *core.Violation {
 func run(t *core.Tape, st *core.Stats) *core.Violation {
 	spec := world.DrawSchema(t, world.SchemaOptions{MinTypes: 2, MaxTypes: 5, MaxAttrs: 5, MaxRels: 3, Names: world.NamesPlain, AllowStruct: true, ForceStruct: -1, TwoWay: true})
 
+	// "every schema": some have a relationship whose target type does not exist
+	dangling := t.Bool(1, 4)
+	if dangling {
+		st.Inc("probe:schema-with-dangling-target")
+	}
+
 	build := func() (*jsonapi.Schema, error, *core.Panic) {
 		var (
 			s   *jsonapi.Schema
 			err error
 		)
 
-		p := core.Call(func() { s, err = spec.BuildSchema(nil) })
+		p := core.Call(func() {
+			s, err = spec.BuildSchema(nil)
+			if err == nil && dangling {
+				_ = s.AddRel(spec.Types[0].Name, jsonapi.Rel{FromType: spec.Types[0].Name, FromName: "dangling-rel", ToType: "nowhere", ToName: "back"})
+			}
+		})
 
 		return s, err, p
 	}
@@ -176,29 +187,6 @@ func run(t *core.Tape, st *core.Stats) *core.Violation {
 
 	st.Inc("probe:policy-" + sched.PolicyNames[cfg.Policy])
 	t.Logf("schema: %d types; %d tasks, %d operations, policy %s quantum %d change %v prefix %v", len(spec.Types), cfg.Tasks, nops, sched.PolicyNames[cfg.Policy], cfg.Quantum, cfg.Change, cfg.Prefix)
-
-	// solo control run: every task's operations alone, in order, on an identical
-	// fresh schema, under the task's own map-order stream
-	soloRes := make([][]string, cfg.Tasks)
-
-	jsonapi.SimMapOrder = sched.MapOrder
-
-	for i, ops := range tasks {
-		sched.SoloTask(cfg, i)
-
-		soloRes[i] = make([]string, len(ops))
-
-		for j, o := range ops {
-			o := o
-			j := j
-
-			if p := core.Call(func() { soloRes[i][j] = o.run(solo) }); p != nil {
-				soloRes[i][j] = "PANIC " + p.Func + ": " + p.Class
-			}
-		}
-	}
-
-	jsonapi.SimMapOrder = nil
 
 	// the concurrent run
 	base := fp(shared, true)
@@ -267,6 +255,32 @@ func run(t *core.Tape, st *core.Stats) *core.Violation {
 
 	jsonapi.SimMapOrder = nil
 	jsonapi.SimYieldHook = nil
+
+	// solo control run: every task's operations alone, in order, on an identical
+	// fresh schema, under the task's own map-order stream. It comes after the
+	// concurrent run, so that process-wide state a tree may keep (lazily filled
+	// package-level caches) is cold when the tasks meet it.
+	soloRes := make([][]string, cfg.Tasks)
+
+	jsonapi.SimMapOrder = sched.MapOrder
+
+	for i, ops := range tasks {
+		sched.SoloTask(cfg, i)
+
+		soloRes[i] = make([]string, len(ops))
+
+		for j, o := range ops {
+			o := o
+			j := j
+
+			if p := core.Call(func() { soloRes[i][j] = o.run(solo) }); p != nil {
+				soloRes[i][j] = "PANIC " + p.Func + ": " + p.Class
+			}
+		}
+	}
+
+	jsonapi.SimMapOrder = nil
+
 
 	st.Steps += int64(ss.Steps)
 	st.MOApplied += ss.MapApplied
